@@ -17,6 +17,7 @@ Allowed ==
       [] Ev.kind = "whole"    -> Ev.outcome = "ok"
       [] Ev.kind = "schedule" -> Ev.outcome = Ev.whole_outcome /\ Ev.digest = Ev.whole_digest   \* delivery-independent
       [] Ev.kind = "sinkfail" -> Ev.outcome = "err"                       \* the sink's error is returned
+      [] Ev.kind = "partial"  -> Ev.outcome = "ok" /\ Ev.digest = Ev.whole_digest   \* a sink may take fewer bytes per call
       [] Ev.kind \in {"mutate", "random", "depth", "structure"} -> Ev.outcome \in {"ok", "err"}   \* never panic / abort / hang
       [] OTHER -> FALSE
 
